@@ -235,7 +235,7 @@ func (env *Env) rangeAssume(st *State, v Val) {
 		if len(env.qvars) > 0 {
 			return // lengths of quantified slice reads: not needed, kept out of the axiom set
 		}
-		emit(fmt.Sprintf("(<= 0 (len_%s %s))", s, v.T))
+		emit(fmt.Sprintf("(and (<= 0 (len_%s %s)) (<= (len_%s %s) 9223372036854775807))", s, v.T, s, v.T))
 		if a, ok := types.Unalias(t).Underlying().(*types.Array); ok {
 			emit(fmt.Sprintf("(= (len_%s %s) %d)", s, v.T, a.Len()))
 		}
